@@ -125,6 +125,14 @@ def instances(rng, q):
         ('Counter', collections.Counter()), ('Counter', collections.Counter('abracadabra')), ('Counter', collections.Counter({'x': -1})),
         ('ChainMap', collections.ChainMap()), ('ChainMap', collections.ChainMap({'a': 1}, {'b': 2})), ('ChainMap', collections.ChainMap({})),
         ('mappingproxy', types.MappingProxyType({})), ('mappingproxy', types.MappingProxyType({'a': [1]})),
+        # heterogeneous / unorderable keys and tied counts
+        ('Counter', collections.Counter([1, 'one'])), ('Counter', collections.Counter({None: 1, 'a': 1, (1, 2): 1})),
+        ('Counter', collections.Counter([Color.RED, Color.GREEN, 1j, 2j])),
+        ('OrderedDict', collections.OrderedDict([(1, 'a'), ('1', 'b'), (None, 'c')])),
+        ('defaultdict', collections.defaultdict(list, {1: [1], 'k': [], None: [None]})),
+        ('mappingproxy', types.MappingProxyType({1: 'a', 'b': 2, (1,): None})),
+        ('ChainMap', collections.ChainMap({1: 1, 'a': 2}, {None: 3})),
+        ('deque', collections.deque([1, 'a', None, (1,)], maxlen=7)),
         ('UUID', uuid.UUID(int=0)), ('UUID', uuid.UUID('12345678-1234-5678-1234-567812345678')),
         ('Enum', Color.RED), ('Enum', Color.GREEN), ('Enum', Perm.R),
         ('SimpleNamespace', types.SimpleNamespace()), ('SimpleNamespace', types.SimpleNamespace(b=1, a='x' * 40)),
